@@ -2,6 +2,7 @@ package main
 
 import (
 	"go/ast"
+	"go/constant"
 	"go/token"
 	"go/types"
 	"strings"
@@ -160,4 +161,24 @@ func typeName(t types.Type) string {
 		return n.Obj().Name()
 	}
 	return shortType(t)
+}
+
+// constByName returns the int64 value of a named integer constant.
+func constByName(p *Prog, pkg, name string) *int64 {
+	pk := p.Pkgs[pkg]
+	if pk == nil {
+		return nil
+	}
+	c, ok := pk.Types.Scope().Lookup(name).(*types.Const)
+	if !ok {
+		return nil
+	}
+	if v, exact := constantInt64(c); exact {
+		return &v
+	}
+	return nil
+}
+
+func constantInt64(c *types.Const) (int64, bool) {
+	return constant.Int64Val(constant.ToInt(c.Val()))
 }
